@@ -78,6 +78,8 @@ pub fn suts() -> Vec<Sut> {
               expect: &[], makes_node: false },
         Sut { name: "bad-string-escape", text: ".asciz \"a\\qb\"", before: &[".data"], after: &[".text", "li a7, 10", "ecall"],
               expect: &[], makes_node: false },
+        Sut { name: "second-return-in-data", text: "ret", before: &["jal f", "li a7, 10", "ecall", "f:", "beq a0, zero, other", "ret", ".data", "other:"], after: &[".text"],
+              expect: &[("invalid-segment", 0, 0)], makes_node: true },
         Sut { name: "stray-paren", text: "( t0", before: &[], after: EXIT,
               expect: &[("parse-unexpected-token", 0, 0)], makes_node: false },
     ]
@@ -441,6 +443,18 @@ impl C09 {
             if on_stmt.iter().any(|d| (d.start_raw, d.end_raw) == want) {
                 acc.count("expected_diagnostics_found", 1);
                 continue;
+            }
+            if on_stmt.is_empty() && sut.name.starts_with("second-return") {
+                // this statement is the only one of the file the diagnostic can be about: if it
+                // exists, it stands somewhere else
+                if let Some(d) = run.diags.iter().find(|d| d.file == b.sut_file as i64 && d.code == *code) {
+                    acc.violation(
+                        format!("C09|diagnostic|{code}|on-another-statement|{}", sut.name),
+                        case,
+                        witness("the diagnostic stands on a statement it is not about", json!({"designated": loc.slice(d.start_raw, d.end_raw), "line": d.start_line + 1, "diagnostic": d})),
+                    );
+                    return;
+                }
             }
             if on_stmt.is_empty() {
                 // whether the diagnostic exists at all is C05's subject; count only
